@@ -78,13 +78,14 @@ def gen_old(seed, kind):
 def recipes(seed, tier, search):
     r = random.Random("c48-%d" % seed)
     out = []
-    if tier == "quick" and not search:
+    if tier == "quick":
+        # (an obligation that broke — `search` — keeps this budget: the kill runs that matter are the deterministic ones)
         fmt_sizes = [r.randrange(5, 60), r.randrange(1500, 4000), r.randrange(60000, 140000)]
         ren = [(r.randrange(2, 4), "absent"), (r.randrange(4, 9), "small")]
     else:
-        fmt_sizes = [r.randrange(5, 60) for _ in range(4)] + [r.randrange(200, 5000) for _ in range(8)] + \
-                    [r.randrange(5000, 200000) for _ in range(6)] + [r.randrange(1 << 20, 3 << 20) for _ in range(2)]
-        ren = [(r.randrange(2, 40), k) for k in ["absent", "small", "large"] * 6 + ["small", "absent"]]
+        fmt_sizes = [r.randrange(5, 60) for _ in range(3)] + [r.randrange(200, 5000) for _ in range(5)] + \
+                    [r.randrange(5000, 200000) for _ in range(4)] + [r.randrange(300000, 700000) for _ in range(2)]
+        ren = [(r.randrange(2, 40), k) for k in ["absent", "small", "large"] * 3 + ["small"]]
     for s in fmt_sizes:
         out.append({"cmd": "fmt", "seed": seed, "size": s})
     for n, k in ren:
@@ -430,7 +431,7 @@ def run(ctx):
             for cls, top in (("write", 3), ("openat", 0), ("close", 0)):
                 for k in range(1, top + 1):
                     plan.append(("U", cls, k))
-            if tier != "quick" or ctx["search"]:
+            if tier != "quick":
                 per_thread = {}
                 for c in calls:
                     per_thread[(c["pid"], c["cls"])] = per_thread.get((c["pid"], c["cls"]), 0) + 1
